@@ -47,6 +47,7 @@ M = [
     ("m29", "C07", P + "xtce/encodings.py", "pad_bits = (8 - (buflen_bits % 8)) % 8", "pad_bits = (8 - (buflen_bits % 8)) % 8 if buflen_bits > 8 else 0"),
     ("m30", "C07", P + "xtce/encodings.py", "parsed_string = raw_string_buffer.read_as_bytes(tchar_byte_index * 8).decode(self._codec)", "parsed_string = raw_string_buffer.read_as_bytes(tchar_byte_index * 8 + (8 if tchar_byte_index == 1 else 0)).decode(self._codec)"),
     ("m31", "C14", P + "xtce/definitions.py", "if packet.raw_data.pos != len(packet.raw_data) * 8:", "if packet.raw_data.pos > len(packet.raw_data) * 8:"),
+    # (m32 is equivalent w.r.t. C14: a bytes read running up to 7 bits past the end leaves the cursor beyond the packet, which is flagged)
     ("m32", "C14", P + "packets.py", "        if self.pos + nbits > len(self) * 8:\n            raise ValueError(\"End of packet reached\")", "        if self.pos + nbits > len(self) * 8 + 7:\n            raise ValueError(\"End of packet reached\")"),
     ("m33", "C11", P + "xtce/definitions.py", "            except UnrecognizedPacketTypeError as e:\n                logger.debug", "            except UnrecognizedPacketTypeError as e:\n                self._last_error = e\n                logger.debug"),
     ("m34", "C09", P + "xtce/comparisons.py", "            useCalibratedValue=str(self.use_calibrated_value).lower(),\n            comparisonOperator=self.operator,", "            comparisonOperator=self.operator,"),
@@ -56,6 +57,8 @@ M = [
     ("m38", "C16", P + "xtce/parameter_types.py", "for el in enumeration_list.iterfind('*')\n            }\n\n        if isinstance(encoding, encodings.FloatDataEncoding):", "for el in enumeration_list\n            }\n\n        if isinstance(encoding, encodings.FloatDataEncoding):"),
     ("m39", "C17", P + "xtce/definitions.py", "            if parameter_type_object.name in parameter_type_dict:", "            if parameter_type_object.name in parameter_type_dict and parameter_type_dict[parameter_type_object.name] != parameter_type_object:"),
     ("m40", "C18", P + "xarr.py", "        elif nbits <= 32:\n            datatype += \"32\"", "        elif nbits <= 33:\n            datatype += \"32\""),
+    # (m41 / m41b are equivalent at the API: xarray itself raises ValueError for variables of conflicting sizes, so a field-set mismatch within
+    #  one APID still ends in ValueError)
     ("m41", "C18", P + "xarr.py", "            if variable_mapping[apid] != packet.keys():", "            if len(variable_mapping[apid]) != len(packet.keys()):"),
     ("m41b", "C18", P + "xarr.py", "            if variable_mapping[apid] != packet.keys():", "            if not variable_mapping[apid] <= packet.keys():"),
     # (equivalent: at exactly ten packets head + tail without an ellipsis row is still every packet once, in order)
@@ -63,6 +66,9 @@ M = [
     ("m42b", "C19", P + "cli.py", "        head_packets, tail_packets = packets[:HEAD_ROWS], packets[-HEAD_ROWS:]", "        head_packets, tail_packets = packets[:HEAD_ROWS], packets[-HEAD_ROWS + 1:]"),
     ("m43", "C20", P + "common.py", "obj.raw_value = raw_value if raw_value is not None else value", "obj.raw_value = raw_value or value"),
 ]
+
+
+EQUIVALENT = {"m17", "m32", "m41", "m41b", "m42"}
 
 
 def main():
@@ -101,7 +107,12 @@ def main():
         os.makedirs("/verif/seeded", exist_ok=True)
         json.dump(out, open(path, "w"), indent=1)
     killed = sum(1 for v in out.values() if v.get("check_exit") == 1)
-    print(f"{killed}/{len(out)} mutants reported as VIOLATION")
+    for k in EQUIVALENT:
+        if k in out:
+            out[k]["equivalent"] = True
+    json.dump(out, open(path, "w"), indent=1)
+    live = [k for k, v in out.items() if v.get("check_exit") != 1 and k not in EQUIVALENT]
+    print(f"{killed}/{len(out)} mutants reported as VIOLATION; {len([k for k in out if k in EQUIVALENT])} equivalent w.r.t. the property (see comments); not caught: {live}")
 
 
 if __name__ == "__main__":
